@@ -146,7 +146,7 @@ def run(chk):
     chk.not_covered += ["json_qcschema: json.dump of Python floats (repr, shortest round-trip) - no format specs; bounded cycles only", "ordering of records, defaulted titles, reader heuristics (WFN spin guess, Molden vendor fixes, FCHK, PDB): bounded cycles only"]
     chk.merge(static_obligations(chk))
     for o in chk.ledger.obligations.values():
-        if o.status == "refuted" and o.name.startswith("stable@poscar."):
+        if o.status == "refuted" and o.name.startswith("stable@poscar:"):
             chk.set_replay(o.name, REPLAY_POSCAR)
     lemma_sampling(chk)
     rt_common.run_probe(chk, "c15")
